@@ -93,9 +93,10 @@ def magicCountFormula (N L adj off : Nat) : Nat :=
 
 /-! ### structure of the frame loop, as data (compared with the generated table) -/
 
-/-- `(array, start, step)` of the two strided assignments, which half is flipped, the concatenation order, the shift
-and the final union with the ACS row -/
+/-- the offset draw, the two strided assignments, which half is flipped, the concatenation order, the shift and the
+final union with the ACS row (`magicRow` / `magicMask` / `magicFrame` mirror exactly this) -/
 def expectedMagicPlan : List String := [
+  "offset=self.rng.randint(0,high=adjusted_acceleration)",
   "mask_positive[offset_pos::adjusted_acceleration]=True",
   "mask_negative[offset_neg::adjusted_acceleration]=True",
   "mask_negative=np.flip(mask_negative)",
